@@ -37,7 +37,7 @@ func (c *Ctx) SameAmountBothSides(ob *core.Obligation) {
 				recvs = append(recvs, call)
 			}
 		}
-		if len(draws) == 0 || len(recvs) == 0 || hasParamOf(fn, src) || hasParamOf(fn, dst) {
+		if len(draws) == 0 || len(recvs) == 0 {
 			continue
 		}
 		c.Touch(fn)
